@@ -1096,17 +1096,12 @@ theorem resolve_out_of_range (w0 : World) (j : Nat) (h0 : queueOf w0 j = []) (p 
 /-- every accepted message carries a frame number (any value the four octets encode) -/
 theorem parseMsg_fn {data : List Nat} {msg : Trxd.TxMsg} (h : Trxd.TxMsg.parseMsg data = .ok msg) :
     ∃ fn : Nat, msg.fn = some (fn : Int) := by
-  unfold Trxd.TxMsg.parseMsg at h
-  split at h
-  · cases h
-  next ver tn fn _ =>
-  split at h
-  · cases h
-  split at h
-  · cases h
-  split at h
-  · cases h
-  split at h <;> (cases h; exact ⟨fn, rfl⟩)
+  simp only [Trxd.TxMsg.parseMsg, bind, Except.bind, pure, Except.pure, throw, throwThe,
+    MonadExceptOf.throw] at h
+  repeat' split at h
+  all_goals first
+    | (cases h; done)
+    | (cases h; exact ⟨_, rfl⟩)
 
 /-- is this a stale report? -/
 def isStaleEv : Ev → Bool
